@@ -69,7 +69,10 @@ class Ctx:
     def rule(self, rid, text, floor=None, floor_note=""):
         self.rule_text[rid] = text
         if floor is not None:
-            self.floors[rid] = (floor, floor_note)
+            self.floors[(rid, self.config)] = (floor, floor_note)
+
+    def set_floor(self, rid, floor, floor_note=""):
+        self.floors[(rid, self.config)] = (floor, floor_note)
 
     def inst(self, rule, fn, what, loc, ok, detail="", path=None, nontrivial=True):
         i = Instance(rule, getattr(fn, "id", fn), what, loc, bool(ok), detail, path, self.config, nontrivial)
@@ -105,13 +108,11 @@ class Ctx:
         return out
 
     def check_floors(self):
-        for rid, (n, note) in self.floors.items():
-            configs = sorted({i.config for i in self.instances}) or [""]
-            for cfg in configs:
-                got = len([i for i in self.instances if i.rule == rid and i.config == cfg and i.nontrivial])
-                if got < n:
-                    self.fail_closed("rule %s matched %d instance(s) in config '%s', below the floor %d confirmed by reading (%s)"
-                                     % (rid, got, cfg, n, note))
+        for (rid, cfg), (n, note) in self.floors.items():
+            got = len([i for i in self.instances if i.rule == rid and i.config == cfg and i.nontrivial])
+            if got < n:
+                self.fail_closed("rule %s matched %d instance(s) in config '%s', below the floor %d confirmed by reading (%s)"
+                                 % (rid, got, cfg, n, note))
 
     def finish(self, level, explanation, checker_cmd, extra_cov=None):
         """writes evidence, prints VIOLATION / KNOWN-FINDING lines, returns exit code"""
@@ -157,8 +158,9 @@ class Ctx:
             d["instances"] += 1
             if not i.ok:
                 d["violations"] += 1
-        for rid, (n, note) in self.floors.items():
-            per_rule.setdefault(rid, dict(instances=0, violations=0))["floor"] = n
+        for (rid, cfg), (n, note) in self.floors.items():
+            d = per_rule.setdefault(rid, dict(instances=0, violations=0))
+            d["floor"] = n if "floor" not in d else "%s/%s" % (d["floor"], n)
         cov = dict(
             evaluations=len(self.instances),
             distinct_nontrivial=len(nontriv),
